@@ -91,7 +91,7 @@ def run_tlc(module, cfg, workdir, workers=8, env_extra=None, timeout=900, covera
     os.makedirs(meta, exist_ok=True)
     jopts = "-Xss1g -Xmx%s -DTLA-Library=%s" % (heap, SPEC)
     if deque:
-        jopts += " -Dtlc2.tool.queue.IStateQueue=StateDeque"
+        jopts += " -Dtlc2.tool.queue.IStateQueue=StateDeque -XX:ParallelGCThreads=2"
     env = dict(os.environ, JAVA_TOOL_OPTIONS=jopts)
     if env_extra:
         env.update(env_extra)
@@ -193,6 +193,7 @@ def shard(hists, n):
 
 
 def validate_trace(trace_module, ndjson, workdir, nshards=8, timeout=1500, cfg=None, heap="3g"):
+    workdir = os.path.abspath(workdir)
     """Validate a recorded ndjson trace against spec/trace/<trace_module>.tla.
     Returns dict(histories, events_applied, rejects=[{hist, line_in_hist, event, exp, history}], states)."""
     hists = split_histories(ndjson)
